@@ -1598,10 +1598,14 @@ package gocql
 
 //@ func marshalBigInt
 //@   props C12 C02
-//@   scenario value: int | int64 | int32 | int16 | int8 | uint | uint64 | uint32 | uint16 | uint8
+//@   scenario value: int | int64 | int32 | int16 | int8 | uint | uint64 | uint32 | uint16 | uint8 | big.Int
+//@   count_calls IsInt64 Int64 encBigInt encBigInt2C
 //@   requires info != nil
-//@   ensures result1 == nil ==> len(result0) == 8 && be64(result0, 0) == uint64(unbox(value, $T))
+//@   ensures[@int] result1 == nil ==> len(result0) == 8 && be64(result0, 0) == uint64(unbox(value, $T))
 //@   ensures[@signed] result1 == nil
+// a big.Int: the 8-byte encoding of its int64 value, an error when it has none (never the varint form)
+//@   ensures[@Int] result1 == nil ==> len(result0) == 8 && IsInt64_calls == 1 && IsInt64_ret0 && Int64_calls == 1 && be64(result0, 0) == uint64(Int64_ret0) && encBigInt2C_calls == 0
+//@   ensures[@Int] IsInt64_calls == 1 && !IsInt64_ret0 ==> result1 != nil
 
 // decoding of the fixed-width integer columns into Go integers (int64Val is the
 // sign-extended column value computed by decInt/decShort/decTiny/decBigInt)
